@@ -252,7 +252,7 @@ func init() {
 		c.Rule("C18-R6", "PRE-V3 DBI creation")
 		c.Rule("C18-R7", "CANCEL")
 		ruleOneTxn(c, "C18-R1", fnLoadOnce, fnLoadTxn, []string{fnMainToSh, fnShToMain, fnStratUpd, "lmdbenv.DBIExists", "(*lmdb.Txn).OpenDBI"})
-		ruleErrFlow(c, "C18-R2", fnLoadTxn, fnMainToSh, fnShToMain, fnStratUpd, fnIterUpd, fnIterUpd+"$callback", fnEmptyPut, "lmdbenv/strategy.doPut", "lmdbenv/strategy.setNewVal", "lmdbenv/strategy.iterBoth", "syncer.(*NativeIterator).Next", fnReadDBI)
+		ruleErrFlow(c, "C18-R2", fnLoadTxn, fnMainToSh, fnShToMain, fnStratUpd, fnIterUpd, fnIterUpd+"$callback", fnEmptyPut, "?lmdbenv/strategy.doPut", "?lmdbenv/strategy.setNewVal", "lmdbenv/strategy.iterBoth", "syncer.(*NativeIterator).Next", fnReadDBI)
 		ruleLoadErrReturned(c, "C18-R2")
 		ruleVersionGates(c, "C18-R3")
 		t := BuildMergeTable(c, "syncer.(*NativeIterator).Merge")
@@ -286,7 +286,7 @@ func init() {
 		ruleEmptyPut(c, "C19-R7")
 		ruleSetNewVal(c, "C19-R7")
 		c.Rule("C19-R8", "NO-OWN-REJECTION: a strategy fails only when the iterator or LMDB failed or the input order is wrong")
-		ruleNoOwnRejection(c, "C19-R8", fnStratUpd, "lmdbenv/strategy.doPut", fnEmptyPut, "lmdbenv/strategy.setNewVal", fnIterUpd+"$callback", "lmdbenv/strategy.iterBoth", "lmdbenv/strategy.Append")
+		ruleNoOwnRejection(c, "C19-R8", fnStratUpd, "?lmdbenv/strategy.doPut", fnEmptyPut, "?lmdbenv/strategy.setNewVal", fnIterUpd+"$callback", "lmdbenv/strategy.iterBoth", "lmdbenv/strategy.Append")
 	})
 }
 
